@@ -71,6 +71,28 @@ def run(ctx):
         elif rc != 0:
             raise RuntimeError("runner failed rc=%s: %s" % (rc, se[-3000:]))
         lines = [l for l in so.split("\n") if l]
+        # directed shapes (field-collection merges on concurrently resolved list elements ...), each run
+        # repeatedly: a race needs two goroutines to meet
+        import glob, os
+        ccases = []
+        for f in sorted(glob.glob(os.path.join(vf.VERIF, "corpus", "C06", "*.jsonl"))):
+            ccases += [l for l in open(f).read().split("\n") if l.strip()]
+        if ccases:
+            reps = 15 if ctx.tier == "quick" else 100
+            rc2, so2, se2 = vf.sh([b, "-mode", "run"], inp="\n".join(ccases * reps) + "\n",
+                                  env={"GORACE": "halt_on_error=0 exitcode=66"}, timeout=1200)
+            if "WARNING: DATA RACE" in se2:
+                races += 1
+                ctx.violation({"kind": "data-race", "config": cfg, "report": se2[se2.index("WARNING: DATA RACE"):][:6000],
+                               "shape": {"race": True}, "cases": [json.loads(c) for c in ccases],
+                               "replay": "printf '<corpus/C06 cases, %d times>' | %s -mode run (race build)" % (reps, b)})
+            elif rc2 != 0:
+                raise RuntimeError("runner failed on corpus rc=%s: %s" % (rc2, se2[-3000:]))
+            cl = [l for l in so2.split("\n") if l]
+            for l in cl:
+                r0 = json.loads(l)
+                dist["directed-merge-shape"] += 1
+            lines += cl
         model = ctx.driver("c06", [schema] + lines) if proved else [None] * len(lines)
         ok = 0
         for l, m in zip(lines, model):
